@@ -36,6 +36,8 @@ META['outside'] = META['outside'].replace('the scanner DRIVER TemplateCore::pars
 MALFORMED = [('if_if_loop', '<if case="1"><if case="1"><loop value="v">{var:v}</loop></if></if>', 3), ('math_else', '{math:1+1<else>}', 0), ('mod_zero', '{math:5%0}', 0), ('div_zero', '{math:5/0}', 0),
              ('unclosed_loop', '<loop value="v">{var:v}', 3), ('else_without_if', 'a<else>b</if>c', 0), ('nested_iif', '{if case="1" true="{if case="1" true="x"}"}', 0),
              # end of input with two and more nested block tags still open (the parser unwinds its stack of open tags innermost first)
+             # (well-formed) an array loop after a sorted object loop at the same level: the loop key of the first must not survive into the second
+             ('sorted_obj_then_array', '<loop set="g" value="x" sort="ascend">{var:x}:</loop>|<loop set="a" value="x">{var:x},</loop>', 8),
              ('unclosed_if_if', '<if case="1">A<if case="1">B', 0), ('unclosed_loop_loop', '<loop value="v"><loop set="v" value="w">{var:w}', 6),
              ('unclosed_if_loop_misnested', '<if case="1"><loop value="v">x</if>', 3), ('unclosed_if_if_if', '<if case="1"><if case="1"><if case="1">x', 0)]
 def queries(tier):
